@@ -62,13 +62,13 @@ SHAPES = {
 
 
 def mc_constants(shape, maxv, inflight, maxcraft, toggle, trunc=2, jump="{}", maxthr=14, gendepth=0,
-                 initthr=2, parked=2, repeats=1, model=None):
+                 initthr=2, parked=2, repeats=1, model=None, cancel=False):
     nodes, wallets, sealers, profile = SHAPES[shape]
     c = {"Node": tla_set(nodes), "Wallet": tla_set(wallets), "GR": '"GR"', "Supply": "10",
          "InitThr": str(initthr), "TruncDepth": str(trunc), "MaxParked": str(parked), "MaxRepeats": str(repeats),
          "Sealers": tla_set(sealers), "MaxV": str(maxv), "MaxInflight": str(inflight), "JumpW": jump,
          "Profile": '"%s"' % profile, "MaxCraft": str(maxcraft), "MaxToggle": str(toggle),
-         "GenDepth": str(gendepth), "MaxThr": str(maxthr)}
+         "GenDepth": str(gendepth), "MaxThr": str(maxthr), "WithCancel": "TRUE" if cancel else "FALSE"}
     c.update(model or {"RootRule": '"genesis"', "CkSelf": '"both"', "CanonRule": '"guarded"', "NoTipRule": '"error"'})
     return c
 
@@ -883,14 +883,21 @@ def check(prop, tier, finish=True):
     mcq, mct = MC_CONFIGS[spec["mc"]]
     mcc = mct if tier == "thorough" else mcq
     inv = list(MC_INV) + (["C02_ModuloF10"] if prop == "C02" else [])
-    mc = run_mc(wd, "mc", mc_constants(**mcc), inv, MC_PROP, workers=max(2, NCPU // 2),
-                timeout=240 if tier == "quick" else 3000)
-    if mc["fail"]:
-        raise Inconclusive("bounded model run failed: %s (see %s)" % (mc["fail"], wd))
-    if mc["violation"]:
-        raise Inconclusive("the bounded model itself violates %s - a defect of the specification, not evidence "
-                           "about the code (see %s/mc.out)" % (mc["violation"], wd))
-    log("[mc] %s: %s in %.0fs" % (spec["mc"], mc["stats"], mc["wall"]))
+    runs = [("mc", mcc)]
+    if tier == "thorough" and spec["mc"] == "single":
+        # the same universe at the quick bound with callers that go away while tips are validated
+        runs.append(("mc_cancel", dict(mcq, cancel=True)))
+    for name, cfg in runs:
+        mc1 = run_mc(wd, name, mc_constants(**cfg), inv, MC_PROP, workers=max(2, NCPU // 2),
+                     timeout=240 if tier == "quick" else 3000)
+        if mc1["fail"]:
+            raise Inconclusive("bounded model run failed: %s (see %s)" % (mc1["fail"], wd))
+        if mc1["violation"]:
+            raise Inconclusive("the bounded model itself violates %s - a defect of the specification, not evidence "
+                               "about the code (see %s/%s.out)" % (mc1["violation"], wd, name))
+        log("[mc] %s%s: %s in %.0fs" % (spec["mc"], " +cancel" if cfg.get("cancel") else "", mc1["stats"], mc1["wall"]))
+        if name == "mc":
+            mc = mc1
 
     # --- GEN ---
     raw = make_behaviours(prop, tier, rng, wd)
